@@ -1865,7 +1865,7 @@ theorem from_trimesh2_moved (hs : LawfulSqrt sq) (ρ : K) (hρ : 0 ≤ ρ) (m : 
 /-- a non-identity unit rotation with a translation for `from_trimesh2_moved` (3-4-5) -/
 example : ((3:ℚ) / 5) * (3 / 5) + (4 / 5) * (4 / 5) = 1 := by norm_num
 
-/-! ### 3-D `from_trimesh` under rigid motions: mass and centre of mass (closed surfaces) -/
+/-! ### 3-D `from_trimesh` under rigid motions (closed surfaces) -/
 
 /-- the rigid motion `x ↦ M x + t` with `M` the rotation matrix of the quaternion `q` (spec side) -/
 def aff3 (q : Quat K) (t v : V3 K) : V3 K :=
@@ -1916,14 +1916,81 @@ theorem closed3_moved (q : Quat K) (t : V3 K) (ts : List (Triangle3 K)) (hc : Cl
   rw [sum_edges3, List.map_map]
   exact h
 
-/-- **3-D TriMesh under a rigid motion, mass and centre (partial: the tensor `M I Mᵀ` is not stated)**: for a closed surface and a
-unit quaternion, `from_trimesh` of the moved mesh returns `zero()` iff the original does, the same mass, and the moved
-centre of mass `M·com + t` — whatever the two vertex averages. -/
-theorem from_trimesh3_moved_partial (ρ : K) (gc gc' : V3 K) (q : Quat K) (hq : UnitQ q) (t : V3 K)
+/-- a unit quaternion with a non-trivial rotation for `from_trimesh3_moved` -/
+example : UnitQ (⟨2 / 3, 1 / 3, 2 / 3, 0⟩ : Quat ℚ) := by norm_num [UnitQ]
+
+/-! ### 3-D `from_trimesh` under rigid motions: the tensor -/
+
+/-- conjugation `M A Mᵀ` by the rotation matrix of `q` -/
+def conj3 (q : Quat K) (A : M3 K) : M3 K :=
+  @M3.mul K (fieldNum K sq) (@M3.mul K (fieldNum K sq) (@Quat.toMat K (fieldNum K sq) q) A) (mtr (@Quat.toMat K (fieldNum K sq) q))
+
+/-- the unit inertia tensor of a rigidly moved tetrahedron about the moved point is the conjugate `M U Mᵀ` -/
+theorem unitInertia4_aff3 (q : Quat K) (hq : UnitQ q) (t r p1 p2 p3 p4 : V3 K) :
+    unitInertia4 (aff3 sq q t r) (aff3 sq q t p1) (aff3 sq q t p2) (aff3 sq q t p3) (aff3 sq q t p4)
+      = conj3 sq q (unitInertia4 r p1 p2 p3 p4) := by
+  have h1 := toMat_mul_transpose sq q hq
+  have h2 := toMat_transpose_mul sq q hq
+  simp only [unitInertia4, cov4, aff3, conj3, mulVec3]
+  generalize @Quat.toMat K (fieldNum K sq) q = M at h1 h2 ⊢
+  rcases M with ⟨⟨m00, m01, m02⟩, ⟨m10, m11, m12⟩, ⟨m20, m21, m22⟩⟩
+  simp only [M3.mul, mtr, mone, M3.mk.injEq, V3.mk.injEq] at h1 h2
+  obtain ⟨⟨h00, h01, h02⟩, ⟨h10, h11, h12⟩, ⟨h20, h21, h22⟩⟩ := h1
+  obtain ⟨⟨g00, g01, g02⟩, ⟨g10, g11, g12⟩, ⟨g20, g21, g22⟩⟩ := h2
+  simp only [M3.mul, mtr]
+  congr 1 <;> congr 1
+  · linear_combination (((p1.x - r.x)*(p1.x - r.x) + (p2.x - r.x)*(p2.x - r.x) + (p3.x - r.x)*(p3.x - r.x) + (p4.x - r.x)*(p4.x - r.x) + ((p1.x - r.x)+(p2.x - r.x)+(p3.x - r.x)+(p4.x - r.x))*((p1.x - r.x)+(p2.x - r.x)+(p3.x - r.x)+(p4.x - r.x)))/20) * g00 + (((p1.y - r.y)*(p1.y - r.y) + (p2.y - r.y)*(p2.y - r.y) + (p3.y - r.y)*(p3.y - r.y) + (p4.y - r.y)*(p4.y - r.y) + ((p1.y - r.y)+(p2.y - r.y)+(p3.y - r.y)+(p4.y - r.y))*((p1.y - r.y)+(p2.y - r.y)+(p3.y - r.y)+(p4.y - r.y)))/20) * g11 + (((p1.z - r.z)*(p1.z - r.z) + (p2.z - r.z)*(p2.z - r.z) + (p3.z - r.z)*(p3.z - r.z) + (p4.z - r.z)*(p4.z - r.z) + ((p1.z - r.z)+(p2.z - r.z)+(p3.z - r.z)+(p4.z - r.z))*((p1.z - r.z)+(p2.z - r.z)+(p3.z - r.z)+(p4.z - r.z)))/20) * g22 + 2 * (((p1.x - r.x)*(p1.y - r.y) + (p2.x - r.x)*(p2.y - r.y) + (p3.x - r.x)*(p3.y - r.y) + (p4.x - r.x)*(p4.y - r.y) + ((p1.x - r.x)+(p2.x - r.x)+(p3.x - r.x)+(p4.x - r.x))*((p1.y - r.y)+(p2.y - r.y)+(p3.y - r.y)+(p4.y - r.y)))/20) * g01 + 2 * (((p1.x - r.x)*(p1.z - r.z) + (p2.x - r.x)*(p2.z - r.z) + (p3.x - r.x)*(p3.z - r.z) + (p4.x - r.x)*(p4.z - r.z) + ((p1.x - r.x)+(p2.x - r.x)+(p3.x - r.x)+(p4.x - r.x))*((p1.z - r.z)+(p2.z - r.z)+(p3.z - r.z)+(p4.z - r.z)))/20) * g02 + 2 * (((p1.y - r.y)*(p1.z - r.z) + (p2.y - r.y)*(p2.z - r.z) + (p3.y - r.y)*(p3.z - r.z) + (p4.y - r.y)*(p4.z - r.z) + ((p1.y - r.y)+(p2.y - r.y)+(p3.y - r.y)+(p4.y - r.y))*((p1.z - r.z)+(p2.z - r.z)+(p3.z - r.z)+(p4.z - r.z)))/20) * g12 - ((((p1.x - r.x)*(p1.x - r.x) + (p2.x - r.x)*(p2.x - r.x) + (p3.x - r.x)*(p3.x - r.x) + (p4.x - r.x)*(p4.x - r.x) + ((p1.x - r.x)+(p2.x - r.x)+(p3.x - r.x)+(p4.x - r.x))*((p1.x - r.x)+(p2.x - r.x)+(p3.x - r.x)+(p4.x - r.x)))/20) + (((p1.y - r.y)*(p1.y - r.y) + (p2.y - r.y)*(p2.y - r.y) + (p3.y - r.y)*(p3.y - r.y) + (p4.y - r.y)*(p4.y - r.y) + ((p1.y - r.y)+(p2.y - r.y)+(p3.y - r.y)+(p4.y - r.y))*((p1.y - r.y)+(p2.y - r.y)+(p3.y - r.y)+(p4.y - r.y)))/20) + (((p1.z - r.z)*(p1.z - r.z) + (p2.z - r.z)*(p2.z - r.z) + (p3.z - r.z)*(p3.z - r.z) + (p4.z - r.z)*(p4.z - r.z) + ((p1.z - r.z)+(p2.z - r.z)+(p3.z - r.z)+(p4.z - r.z))*((p1.z - r.z)+(p2.z - r.z)+(p3.z - r.z)+(p4.z - r.z)))/20)) * h00
+  · linear_combination (-((((p1.x - r.x)*(p1.x - r.x) + (p2.x - r.x)*(p2.x - r.x) + (p3.x - r.x)*(p3.x - r.x) + (p4.x - r.x)*(p4.x - r.x) + ((p1.x - r.x)+(p2.x - r.x)+(p3.x - r.x)+(p4.x - r.x))*((p1.x - r.x)+(p2.x - r.x)+(p3.x - r.x)+(p4.x - r.x)))/20) + (((p1.y - r.y)*(p1.y - r.y) + (p2.y - r.y)*(p2.y - r.y) + (p3.y - r.y)*(p3.y - r.y) + (p4.y - r.y)*(p4.y - r.y) + ((p1.y - r.y)+(p2.y - r.y)+(p3.y - r.y)+(p4.y - r.y))*((p1.y - r.y)+(p2.y - r.y)+(p3.y - r.y)+(p4.y - r.y)))/20) + (((p1.z - r.z)*(p1.z - r.z) + (p2.z - r.z)*(p2.z - r.z) + (p3.z - r.z)*(p3.z - r.z) + (p4.z - r.z)*(p4.z - r.z) + ((p1.z - r.z)+(p2.z - r.z)+(p3.z - r.z)+(p4.z - r.z))*((p1.z - r.z)+(p2.z - r.z)+(p3.z - r.z)+(p4.z - r.z)))/20))) * h01
+  · linear_combination (-((((p1.x - r.x)*(p1.x - r.x) + (p2.x - r.x)*(p2.x - r.x) + (p3.x - r.x)*(p3.x - r.x) + (p4.x - r.x)*(p4.x - r.x) + ((p1.x - r.x)+(p2.x - r.x)+(p3.x - r.x)+(p4.x - r.x))*((p1.x - r.x)+(p2.x - r.x)+(p3.x - r.x)+(p4.x - r.x)))/20) + (((p1.y - r.y)*(p1.y - r.y) + (p2.y - r.y)*(p2.y - r.y) + (p3.y - r.y)*(p3.y - r.y) + (p4.y - r.y)*(p4.y - r.y) + ((p1.y - r.y)+(p2.y - r.y)+(p3.y - r.y)+(p4.y - r.y))*((p1.y - r.y)+(p2.y - r.y)+(p3.y - r.y)+(p4.y - r.y)))/20) + (((p1.z - r.z)*(p1.z - r.z) + (p2.z - r.z)*(p2.z - r.z) + (p3.z - r.z)*(p3.z - r.z) + (p4.z - r.z)*(p4.z - r.z) + ((p1.z - r.z)+(p2.z - r.z)+(p3.z - r.z)+(p4.z - r.z))*((p1.z - r.z)+(p2.z - r.z)+(p3.z - r.z)+(p4.z - r.z)))/20))) * h02
+  · linear_combination (-((((p1.x - r.x)*(p1.x - r.x) + (p2.x - r.x)*(p2.x - r.x) + (p3.x - r.x)*(p3.x - r.x) + (p4.x - r.x)*(p4.x - r.x) + ((p1.x - r.x)+(p2.x - r.x)+(p3.x - r.x)+(p4.x - r.x))*((p1.x - r.x)+(p2.x - r.x)+(p3.x - r.x)+(p4.x - r.x)))/20) + (((p1.y - r.y)*(p1.y - r.y) + (p2.y - r.y)*(p2.y - r.y) + (p3.y - r.y)*(p3.y - r.y) + (p4.y - r.y)*(p4.y - r.y) + ((p1.y - r.y)+(p2.y - r.y)+(p3.y - r.y)+(p4.y - r.y))*((p1.y - r.y)+(p2.y - r.y)+(p3.y - r.y)+(p4.y - r.y)))/20) + (((p1.z - r.z)*(p1.z - r.z) + (p2.z - r.z)*(p2.z - r.z) + (p3.z - r.z)*(p3.z - r.z) + (p4.z - r.z)*(p4.z - r.z) + ((p1.z - r.z)+(p2.z - r.z)+(p3.z - r.z)+(p4.z - r.z))*((p1.z - r.z)+(p2.z - r.z)+(p3.z - r.z)+(p4.z - r.z)))/20))) * h10
+  · linear_combination (((p1.x - r.x)*(p1.x - r.x) + (p2.x - r.x)*(p2.x - r.x) + (p3.x - r.x)*(p3.x - r.x) + (p4.x - r.x)*(p4.x - r.x) + ((p1.x - r.x)+(p2.x - r.x)+(p3.x - r.x)+(p4.x - r.x))*((p1.x - r.x)+(p2.x - r.x)+(p3.x - r.x)+(p4.x - r.x)))/20) * g00 + (((p1.y - r.y)*(p1.y - r.y) + (p2.y - r.y)*(p2.y - r.y) + (p3.y - r.y)*(p3.y - r.y) + (p4.y - r.y)*(p4.y - r.y) + ((p1.y - r.y)+(p2.y - r.y)+(p3.y - r.y)+(p4.y - r.y))*((p1.y - r.y)+(p2.y - r.y)+(p3.y - r.y)+(p4.y - r.y)))/20) * g11 + (((p1.z - r.z)*(p1.z - r.z) + (p2.z - r.z)*(p2.z - r.z) + (p3.z - r.z)*(p3.z - r.z) + (p4.z - r.z)*(p4.z - r.z) + ((p1.z - r.z)+(p2.z - r.z)+(p3.z - r.z)+(p4.z - r.z))*((p1.z - r.z)+(p2.z - r.z)+(p3.z - r.z)+(p4.z - r.z)))/20) * g22 + 2 * (((p1.x - r.x)*(p1.y - r.y) + (p2.x - r.x)*(p2.y - r.y) + (p3.x - r.x)*(p3.y - r.y) + (p4.x - r.x)*(p4.y - r.y) + ((p1.x - r.x)+(p2.x - r.x)+(p3.x - r.x)+(p4.x - r.x))*((p1.y - r.y)+(p2.y - r.y)+(p3.y - r.y)+(p4.y - r.y)))/20) * g01 + 2 * (((p1.x - r.x)*(p1.z - r.z) + (p2.x - r.x)*(p2.z - r.z) + (p3.x - r.x)*(p3.z - r.z) + (p4.x - r.x)*(p4.z - r.z) + ((p1.x - r.x)+(p2.x - r.x)+(p3.x - r.x)+(p4.x - r.x))*((p1.z - r.z)+(p2.z - r.z)+(p3.z - r.z)+(p4.z - r.z)))/20) * g02 + 2 * (((p1.y - r.y)*(p1.z - r.z) + (p2.y - r.y)*(p2.z - r.z) + (p3.y - r.y)*(p3.z - r.z) + (p4.y - r.y)*(p4.z - r.z) + ((p1.y - r.y)+(p2.y - r.y)+(p3.y - r.y)+(p4.y - r.y))*((p1.z - r.z)+(p2.z - r.z)+(p3.z - r.z)+(p4.z - r.z)))/20) * g12 - ((((p1.x - r.x)*(p1.x - r.x) + (p2.x - r.x)*(p2.x - r.x) + (p3.x - r.x)*(p3.x - r.x) + (p4.x - r.x)*(p4.x - r.x) + ((p1.x - r.x)+(p2.x - r.x)+(p3.x - r.x)+(p4.x - r.x))*((p1.x - r.x)+(p2.x - r.x)+(p3.x - r.x)+(p4.x - r.x)))/20) + (((p1.y - r.y)*(p1.y - r.y) + (p2.y - r.y)*(p2.y - r.y) + (p3.y - r.y)*(p3.y - r.y) + (p4.y - r.y)*(p4.y - r.y) + ((p1.y - r.y)+(p2.y - r.y)+(p3.y - r.y)+(p4.y - r.y))*((p1.y - r.y)+(p2.y - r.y)+(p3.y - r.y)+(p4.y - r.y)))/20) + (((p1.z - r.z)*(p1.z - r.z) + (p2.z - r.z)*(p2.z - r.z) + (p3.z - r.z)*(p3.z - r.z) + (p4.z - r.z)*(p4.z - r.z) + ((p1.z - r.z)+(p2.z - r.z)+(p3.z - r.z)+(p4.z - r.z))*((p1.z - r.z)+(p2.z - r.z)+(p3.z - r.z)+(p4.z - r.z)))/20)) * h11
+  · linear_combination (-((((p1.x - r.x)*(p1.x - r.x) + (p2.x - r.x)*(p2.x - r.x) + (p3.x - r.x)*(p3.x - r.x) + (p4.x - r.x)*(p4.x - r.x) + ((p1.x - r.x)+(p2.x - r.x)+(p3.x - r.x)+(p4.x - r.x))*((p1.x - r.x)+(p2.x - r.x)+(p3.x - r.x)+(p4.x - r.x)))/20) + (((p1.y - r.y)*(p1.y - r.y) + (p2.y - r.y)*(p2.y - r.y) + (p3.y - r.y)*(p3.y - r.y) + (p4.y - r.y)*(p4.y - r.y) + ((p1.y - r.y)+(p2.y - r.y)+(p3.y - r.y)+(p4.y - r.y))*((p1.y - r.y)+(p2.y - r.y)+(p3.y - r.y)+(p4.y - r.y)))/20) + (((p1.z - r.z)*(p1.z - r.z) + (p2.z - r.z)*(p2.z - r.z) + (p3.z - r.z)*(p3.z - r.z) + (p4.z - r.z)*(p4.z - r.z) + ((p1.z - r.z)+(p2.z - r.z)+(p3.z - r.z)+(p4.z - r.z))*((p1.z - r.z)+(p2.z - r.z)+(p3.z - r.z)+(p4.z - r.z)))/20))) * h12
+  · linear_combination (-((((p1.x - r.x)*(p1.x - r.x) + (p2.x - r.x)*(p2.x - r.x) + (p3.x - r.x)*(p3.x - r.x) + (p4.x - r.x)*(p4.x - r.x) + ((p1.x - r.x)+(p2.x - r.x)+(p3.x - r.x)+(p4.x - r.x))*((p1.x - r.x)+(p2.x - r.x)+(p3.x - r.x)+(p4.x - r.x)))/20) + (((p1.y - r.y)*(p1.y - r.y) + (p2.y - r.y)*(p2.y - r.y) + (p3.y - r.y)*(p3.y - r.y) + (p4.y - r.y)*(p4.y - r.y) + ((p1.y - r.y)+(p2.y - r.y)+(p3.y - r.y)+(p4.y - r.y))*((p1.y - r.y)+(p2.y - r.y)+(p3.y - r.y)+(p4.y - r.y)))/20) + (((p1.z - r.z)*(p1.z - r.z) + (p2.z - r.z)*(p2.z - r.z) + (p3.z - r.z)*(p3.z - r.z) + (p4.z - r.z)*(p4.z - r.z) + ((p1.z - r.z)+(p2.z - r.z)+(p3.z - r.z)+(p4.z - r.z))*((p1.z - r.z)+(p2.z - r.z)+(p3.z - r.z)+(p4.z - r.z)))/20))) * h20
+  · linear_combination (-((((p1.x - r.x)*(p1.x - r.x) + (p2.x - r.x)*(p2.x - r.x) + (p3.x - r.x)*(p3.x - r.x) + (p4.x - r.x)*(p4.x - r.x) + ((p1.x - r.x)+(p2.x - r.x)+(p3.x - r.x)+(p4.x - r.x))*((p1.x - r.x)+(p2.x - r.x)+(p3.x - r.x)+(p4.x - r.x)))/20) + (((p1.y - r.y)*(p1.y - r.y) + (p2.y - r.y)*(p2.y - r.y) + (p3.y - r.y)*(p3.y - r.y) + (p4.y - r.y)*(p4.y - r.y) + ((p1.y - r.y)+(p2.y - r.y)+(p3.y - r.y)+(p4.y - r.y))*((p1.y - r.y)+(p2.y - r.y)+(p3.y - r.y)+(p4.y - r.y)))/20) + (((p1.z - r.z)*(p1.z - r.z) + (p2.z - r.z)*(p2.z - r.z) + (p3.z - r.z)*(p3.z - r.z) + (p4.z - r.z)*(p4.z - r.z) + ((p1.z - r.z)+(p2.z - r.z)+(p3.z - r.z)+(p4.z - r.z))*((p1.z - r.z)+(p2.z - r.z)+(p3.z - r.z)+(p4.z - r.z)))/20))) * h21
+  · linear_combination (((p1.x - r.x)*(p1.x - r.x) + (p2.x - r.x)*(p2.x - r.x) + (p3.x - r.x)*(p3.x - r.x) + (p4.x - r.x)*(p4.x - r.x) + ((p1.x - r.x)+(p2.x - r.x)+(p3.x - r.x)+(p4.x - r.x))*((p1.x - r.x)+(p2.x - r.x)+(p3.x - r.x)+(p4.x - r.x)))/20) * g00 + (((p1.y - r.y)*(p1.y - r.y) + (p2.y - r.y)*(p2.y - r.y) + (p3.y - r.y)*(p3.y - r.y) + (p4.y - r.y)*(p4.y - r.y) + ((p1.y - r.y)+(p2.y - r.y)+(p3.y - r.y)+(p4.y - r.y))*((p1.y - r.y)+(p2.y - r.y)+(p3.y - r.y)+(p4.y - r.y)))/20) * g11 + (((p1.z - r.z)*(p1.z - r.z) + (p2.z - r.z)*(p2.z - r.z) + (p3.z - r.z)*(p3.z - r.z) + (p4.z - r.z)*(p4.z - r.z) + ((p1.z - r.z)+(p2.z - r.z)+(p3.z - r.z)+(p4.z - r.z))*((p1.z - r.z)+(p2.z - r.z)+(p3.z - r.z)+(p4.z - r.z)))/20) * g22 + 2 * (((p1.x - r.x)*(p1.y - r.y) + (p2.x - r.x)*(p2.y - r.y) + (p3.x - r.x)*(p3.y - r.y) + (p4.x - r.x)*(p4.y - r.y) + ((p1.x - r.x)+(p2.x - r.x)+(p3.x - r.x)+(p4.x - r.x))*((p1.y - r.y)+(p2.y - r.y)+(p3.y - r.y)+(p4.y - r.y)))/20) * g01 + 2 * (((p1.x - r.x)*(p1.z - r.z) + (p2.x - r.x)*(p2.z - r.z) + (p3.x - r.x)*(p3.z - r.z) + (p4.x - r.x)*(p4.z - r.z) + ((p1.x - r.x)+(p2.x - r.x)+(p3.x - r.x)+(p4.x - r.x))*((p1.z - r.z)+(p2.z - r.z)+(p3.z - r.z)+(p4.z - r.z)))/20) * g02 + 2 * (((p1.y - r.y)*(p1.z - r.z) + (p2.y - r.y)*(p2.z - r.z) + (p3.y - r.y)*(p3.z - r.z) + (p4.y - r.y)*(p4.z - r.z) + ((p1.y - r.y)+(p2.y - r.y)+(p3.y - r.y)+(p4.y - r.y))*((p1.z - r.z)+(p2.z - r.z)+(p3.z - r.z)+(p4.z - r.z)))/20) * g12 - ((((p1.x - r.x)*(p1.x - r.x) + (p2.x - r.x)*(p2.x - r.x) + (p3.x - r.x)*(p3.x - r.x) + (p4.x - r.x)*(p4.x - r.x) + ((p1.x - r.x)+(p2.x - r.x)+(p3.x - r.x)+(p4.x - r.x))*((p1.x - r.x)+(p2.x - r.x)+(p3.x - r.x)+(p4.x - r.x)))/20) + (((p1.y - r.y)*(p1.y - r.y) + (p2.y - r.y)*(p2.y - r.y) + (p3.y - r.y)*(p3.y - r.y) + (p4.y - r.y)*(p4.y - r.y) + ((p1.y - r.y)+(p2.y - r.y)+(p3.y - r.y)+(p4.y - r.y))*((p1.y - r.y)+(p2.y - r.y)+(p3.y - r.y)+(p4.y - r.y)))/20) + (((p1.z - r.z)*(p1.z - r.z) + (p2.z - r.z)*(p2.z - r.z) + (p3.z - r.z)*(p3.z - r.z) + (p4.z - r.z)*(p4.z - r.z) + ((p1.z - r.z)+(p2.z - r.z)+(p3.z - r.z)+(p4.z - r.z))*((p1.z - r.z)+(p2.z - r.z)+(p3.z - r.z)+(p4.z - r.z)))/20)) * h22
+
+theorem conj3_madd (q : Quat K) (A B : M3 K) : conj3 sq q (madd A B) = madd (conj3 sq q A) (conj3 sq q B) := by
+  simp only [conj3]
+  generalize @Quat.toMat K (fieldNum K sq) q = M
+  rcases M with ⟨⟨m00, m01, m02⟩, ⟨m10, m11, m12⟩, ⟨m20, m21, m22⟩⟩
+  simp only [M3.mul, mtr, madd]
+  congr 1 <;> congr 1 <;> ring
+
+theorem conj3_mscale (q : Quat K) (A : M3 K) (v : K) : conj3 sq q (mscale A v) = mscale (conj3 sq q A) v := by
+  simp only [conj3]
+  generalize @Quat.toMat K (fieldNum K sq) q = M
+  rcases M with ⟨⟨m00, m01, m02⟩, ⟨m10, m11, m12⟩, ⟨m20, m21, m22⟩⟩
+  simp only [M3.mul, mtr, mscale]
+  congr 1 <;> congr 1 <;> ring
+
+theorem conj3_mzero (q : Quat K) : conj3 sq q mzero = mzero := by
+  simp only [conj3]
+  generalize @Quat.toMat K (fieldNum K sq) q = M
+  rcases M with ⟨⟨m00, m01, m02⟩, ⟨m10, m11, m12⟩, ⟨m20, m21, m22⟩⟩
+  simp only [M3.mul, mtr, mzero]
+  congr 1 <;> congr 1 <;> ring
+
+/-- the signed inertia tensor of the cones over a rigidly moved triangle list (apex and reference point moved along) is
+the conjugate `M J Mᵀ` -/
+theorem coneInertia_moved (q : Quat K) (hq : UnitQ q) (t r o : V3 K) (ts : List (Triangle3 K)) :
+    coneInertia (aff3 sq q t r) (aff3 sq q t o) (ts.map (moveTri3 sq q t)) = conj3 sq q (coneInertia r o ts) := by
+  induction ts with
+  | nil =>
+    simp only [List.map_nil, coneInertia, msum, List.foldr_nil]
+    exact (conj3_mzero sq q).symm
+  | cons s l ih =>
+    simp only [List.map_cons, coneInertia_cons, moveTri3] at ih ⊢
+    rw [ih, unitInertia4_aff3 sq q hq, vol4_aff3 sq q hq, conj3_madd, conj3_mscale]
+
+/-- **3-D TriMesh under a rigid motion (covariance of `from_trimesh`, closed surfaces)**: for a unit quaternion,
+`from_trimesh` of the moved mesh returns `zero()` iff the original does, the same mass, the moved centre `M·com + t` and the
+conjugated tensor `M I Mᵀ` — whatever the two vertex averages: exactly what `transform_by` does to the result
+(`transformBy3_covariant`). -/
+theorem from_trimesh3_moved (ρ : K) (gc gc' : V3 K) (q : Quat K) (hq : UnitQ q) (t : V3 K)
     (ts : List (Triangle3 K)) (hc : Closed3 ts) :
     letI := fieldNum K sq
-    (fromTrimesh3Raw ρ gc' (ts.map (moveTri3 sq q t))).map (fun r => (r.1, r.2.1))
-      = (fromTrimesh3Raw ρ gc ts).map (fun r => (aff3 sq q t r.1, r.2.1)) := by
+    fromTrimesh3Raw ρ gc' (ts.map (moveTri3 sq q t))
+      = (fromTrimesh3Raw ρ gc ts).map (fun r => (aff3 sq q t r.1, r.2.1, conj3 sq q r.2.2)) := by
   have a := from_trimesh3_closed sq ρ gc ⟨0, 0, 0⟩ ts hc
   have b := from_trimesh3_closed sq ρ gc' (aff3 sq q t ⟨0, 0, 0⟩) _ (closed3_moved sq q t ts hc)
   obtain ⟨e1, e2⟩ := cone_moved sq q hq t ⟨0, 0, 0⟩ ts
@@ -1931,12 +1998,17 @@ theorem from_trimesh3_moved_partial (ρ : K) (gc gc' : V3 K) (q : Quat K) (hq : 
   rw [a, b, e1, e2]
   by_cases hV : coneVol (⟨0, 0, 0⟩ : V3 K) ts = 0
   · simp only [hV, if_true, Option.map_none]
-  · simp only [hV, if_false, Option.map_some, Option.some.injEq, Prod.mk.injEq, and_true]
-    generalize coneFirst (⟨0, 0, 0⟩ : V3 K) ts = F at *
-    generalize coneVol (⟨0, 0, 0⟩ : V3 K) ts = V at *
-    simp only [aff3, mulVec3]
-    congr 1 <;> (field_simp)
-/-- a unit quaternion with a non-trivial rotation for `from_trimesh3_moved_partial` -/
-example : UnitQ (⟨2 / 3, 1 / 3, 2 / 3, 0⟩ : Quat ℚ) := by norm_num [UnitQ]
+  · simp only [hV, if_false, Option.map_some, Option.some.injEq, Prod.mk.injEq, true_and]
+    have hcom : (⟨((mulVec3 (@Quat.toMat K (fieldNum K sq) q) (coneFirst ⟨0, 0, 0⟩ ts)).x + coneVol ⟨0, 0, 0⟩ ts * t.x) / coneVol ⟨0, 0, 0⟩ ts,
+        ((mulVec3 (@Quat.toMat K (fieldNum K sq) q) (coneFirst ⟨0, 0, 0⟩ ts)).y + coneVol ⟨0, 0, 0⟩ ts * t.y) / coneVol ⟨0, 0, 0⟩ ts,
+        ((mulVec3 (@Quat.toMat K (fieldNum K sq) q) (coneFirst ⟨0, 0, 0⟩ ts)).z + coneVol ⟨0, 0, 0⟩ ts * t.z) / coneVol ⟨0, 0, 0⟩ ts⟩ : V3 K)
+        = aff3 sq q t ⟨(coneFirst ⟨0, 0, 0⟩ ts).x / coneVol ⟨0, 0, 0⟩ ts, (coneFirst ⟨0, 0, 0⟩ ts).y / coneVol ⟨0, 0, 0⟩ ts,
+            (coneFirst ⟨0, 0, 0⟩ ts).z / coneVol ⟨0, 0, 0⟩ ts⟩ := by
+      generalize coneFirst (⟨0, 0, 0⟩ : V3 K) ts = F at *
+      generalize coneVol (⟨0, 0, 0⟩ : V3 K) ts = V at *
+      simp only [aff3, mulVec3]
+      congr 1 <;> field_simp
+    rw [hcom, coneInertia_moved sq q hq, conj3_mscale, conj3_mscale]
+    repeat' constructor
 
 end C13
